@@ -63,12 +63,33 @@ OpNext(S, o) ==
     [] OTHER -> S
 
 (* ------------------------------------------------------------------------------------------------
-   Weak readings used ONLY to classify a history the strict object rejects (Trace_Mpmc, MpmcImpl):
-     weak send   = two atomic actions: "chk" (closed? -> Err) then "enq" (append, Ok) - the message may be
-                   accepted although close took effect in between
-     weak recv   = Err(closed) may be two atomic actions: "emp" (the queue is empty) then "cls" (closed) -
-                   the error may be reported although a message was accepted in between
-   A history that is linearisable only under a weak reading is reported as a close race, never accepted. *)
+   Linearisation of a pending operation (shared by the monitors of MpmcImpl.tla and the judge Trace_Mpmc.tla).
+   The status of a process is [st |-> "idle" | "inv" | "mid" | "done", r |-> result]. LinSucc gives the
+   (channel, status) pairs reachable by letting operation o of a process with status s take effect on S.
+   Strict reading: the whole operation is one atomic action of the object above ("inv" -> "done").
+   Weak readings, used ONLY to classify a history the strict object rejects (never to accept it):
+     wsend   send = two atomic actions: "chk" (closed? -> Err | "mid") then "enq" (append, Ok): the message
+             may be accepted although close took effect in between
+     wrecv   recv's Err = two atomic actions: "emp" (the queue is empty: "mid") then "cls" (closed -> Err):
+             the error may be reported although a message was accepted in between; from "mid" the loop may
+             also go round and behave like a fresh recv *)
+StIdle == [st |-> "idle", r |-> RUnit]
+StInv == [st |-> "inv", r |-> RUnit]
+StMid == [st |-> "mid", r |-> RUnit]
+StDone(r) == [st |-> "done", r |-> r]
+LinSucc(S, s, o, wsend, wrecv) ==
+  LET whole == IF OpEnabled(S, o) THEN {[S |-> OpNext(S, o), s |-> StDone(OpRes(S, o))]} ELSE {}
+      strict == IF s.st = "inv" THEN whole ELSE {}
+      ws == IF wsend /\ o.op = "send"
+            THEN (IF s.st = "inv" /\ ~S.closed THEN {[S |-> S, s |-> StMid]} ELSE {})
+                 \cup (IF s.st = "mid" THEN {[S |-> [S EXCEPT !.q = Append(@, o.m)], s |-> StDone(ROk)]} ELSE {})
+            ELSE {}
+      wr == IF wrecv /\ o.op = "recv"
+            THEN (IF s.st = "inv" /\ S.q = <<>> THEN {[S |-> S, s |-> StMid]} ELSE {})
+                 \cup (IF s.st = "mid" /\ S.closed THEN {[S |-> S, s |-> StDone(RClosed)]} ELSE {})
+                 \cup (IF s.st = "mid" THEN whole ELSE {})
+            ELSE {}
+  IN strict \cup ws \cup wr
 
 (* ------------------------------------------------------------------------------------------------
    The obligations, over a sequential history h = sequence of [o |-> operation, res |-> result]
